@@ -204,9 +204,12 @@ _T["C07"] = ("Theorems unsigned_roundtrip / signed_roundtrip / narrow_roundtrip 
 _T["C04"] = ("PARTIAL with a recorded finding. Proved: literal_has_value, integer_exact_signed / integer_exact_unsigned (every in-range decimal integer literal decodes exactly in all four widths), nondecimal_exact (#H/#Q/#B up to the type width), conversion_sees_literal_partial (a decimal literal WITHOUT inner white space, not the single digit 0 followed by x/X, is converted whole by strtod whatever follows it), unit_names_distinct, unit_names_lex_whole, translateUnit_finds, unit_prefix_rule (every row of the generated unit table has multiplier 1, is explained by an SI prefix of table 7-2, or is one of nine listed rows), special_mnemonics. Disproved and kept visible: conversion_counterexample ('1 E3' lexes as one literal of value 1000 but converts as 1) - genuine defect, recorded as known finding C04.whitespace_in_literal; hexfloat_counterexample ('0x1': unobservable, the suffix is always rejected, unit_names_no_x). Correct rounding of strtod is trusted (C library) and judged on every run against exact rational arithmetic.",
             "Lean kernel + standard axioms; translator for the unit table (multipliers as exact rationals) and special numbers; strtod's rounding is trusted libc and judged per run with Spec/Float.lean; context model tied to parser.c/units.c/utils.c by scripted differential testing",
             "Lean 4 theorems over reader models and generated unit table + exact-rational judge + differential correspondence")
+_T["C08"] = ("PARTIAL with a recorded finding. Proved for every context, every partition into non-empty chunks and every stream (pending bytes included) without quote characters: input_split_partial / chunking_invariant_partial / chunking_invariant_noquote_nocr / chunking_bytewise_partial (no CR in the stream: any two partitions, and feeding byte by byte, give the same handler invocations, parameters, errors, parsed messages, output bytes, flushes, registers, error queue and unconsumed remainder), input_split_cr_partial / chunking_invariant_cr_partial (CR LF and lone CR terminators allowed, partitions that do not cut directly after a CR), scan_prefix_stable (the terminator scan of SCPI_Input decides on bytes already present), flush_executes_pending (a zero-length call executes the pending bytes as one message and empties the buffer); definite-length blocks with arbitrary data are covered. They rest on the proved model lemma parseLocalCR (SCPI_Parse of a message ending in LF or CR never depends on buffer bytes behind it). Disproved and kept visible: chunking_counterexample (a line terminator inside a quoted string ends the message when the stream arrives in pieces and not when it arrives whole) - genuine defect, known finding C08.terminator_inside_quotes; chunking_crlf_difference (a cut between CR and LF makes the LF an empty message of its own: same handlers, parameters and output; only the hook's message record differs).",
+            "Lean kernel + standard axioms; context model tied to parser.c by scripted differential testing of every case in two segmentations (P8 mode) plus directed streams with numeric tails and flush calls, under ASan with the buffer-tail poisoning hook",
+            "Lean 4 theorems (scan / parse / move decomposition of SCPI_Input, locality of SCPI_Parse) + differential correspondence of two segmentations")
 for _k, (_a, _b, _c) in _T.items():
     PROPS[_k]["level_text"], PROPS[_k]["level_note"], PROPS[_k]["technique"] = _a, _b, _c
 
 # properties whose theorem module is not complete yet are not claimed
-for _k in ("C08",):  # unclaimed
+for _k in ():  # unclaimed
     PROPS[_k]["unclaimed"] = True
